@@ -1021,9 +1021,56 @@ pid_t __wrap_fork(void) {
       if (kv2.second.kind == Kernel::FdEntry::STREAM && kv2.second.end == e->peer) peer_in_sut = true;
     if (peer_in_sut) { e->refs++; p->held.push_back(e); }
   }
+  p->argv = K->next_spawn_argv;
+  K->next_spawn_argv.clear();
   K->procs.push_back(p);
   if (K->trace) K->trace("fork", p->pid, 0);
   return p->pid;
+}
+
+void Kernel::proc_settle(Process *p) {
+  if (p->settled) return;
+  p->settled = true;
+  for (End *e : p->held) {
+    bool parent_has_it = false;
+    for (auto &kv : fdt) if (kv.second.kind == FdEntry::STREAM && kv.second.end == e) parent_has_it = true;
+    if (parent_has_it) unref_end(e);            // a copy of one of the parent's own descriptors: the child closes it
+    else if (e->is_pipe) { if (!p->errpipe) p->errpipe = e; else unref_end(e); }
+    else { if (!p->sock) p->sock = e; else unref_end(e); }
+  }
+  p->held.clear();
+}
+static std::string two_ints(int a, int b) { std::string s((const char *)&a, sizeof a); s.append((const char *)&b, sizeof b); return s; }
+void Kernel::proc_exec_ok(Process *p) {
+  proc_settle(p);
+  if (p->exited) return;
+  if (p->errpipe) { unref_end(p->errpipe); p->errpipe = nullptr; }
+  if (p->sock && !p->reported) actor_write(p->sock, two_ints(3 /* CHILD_PID */, p->pid + 100000));
+  p->reported = true;
+}
+void Kernel::proc_exit(Process *p, int wait_status) {
+  proc_settle(p);
+  if (p->exited) return;
+  if (p->errpipe) { unref_end(p->errpipe); p->errpipe = nullptr; }
+  if (p->sock && !p->reported) { actor_write(p->sock, two_ints(3, p->pid + 100000)); p->reported = true; }
+  if (p->sock) { actor_write(p->sock, two_ints(0 /* CHILD_EXITED */, wait_status)); unref_end(p->sock); p->sock = nullptr; }
+  p->exited = true;
+  p->status = 0;
+}
+void Kernel::proc_exec_failed(Process *p, int err) {
+  proc_settle(p);
+  if (p->exited) return;
+  if (p->errpipe) { actor_write(p->errpipe, two_ints(2 /* CHILD_EXEC_FAILED */, err)); unref_end(p->errpipe); p->errpipe = nullptr; }
+  if (p->sock) { if (!p->reported) actor_write(p->sock, two_ints(3, p->pid + 100000)); p->reported = true; actor_write(p->sock, two_ints(0, 1 << 8)); unref_end(p->sock); p->sock = nullptr; }
+  p->exited = true;
+  p->status = 0;
+}
+void Kernel::proc_die(Process *p) {
+  proc_settle(p);
+  if (p->errpipe) { unref_end(p->errpipe); p->errpipe = nullptr; }
+  if (p->sock) { unref_end(p->sock); p->sock = nullptr; }
+  p->exited = true;
+  p->status = 9;
 }
 
 pid_t __wrap_waitpid(pid_t pid, int *status, int options) {
@@ -1047,12 +1094,13 @@ pid_t __wrap_waitpid(pid_t pid, int *status, int options) {
 
 int __wrap_kill(pid_t pid, int sig) {
   COUNT("kill");
-  Process *p = K->proc_by_pid(pid);
+  Process *p = K->proc_by_pid(pid >= 100000 ? pid - 100000 : pid);   // the grandchild's pid stands for the same scripted process
   if (!p) {
     if (pid == K->self.pid) return 0;   // SIGHUP to ourselves from dir-watch: ignored
     errno = ESRCH; return -1;
   }
   if (sig != 0) { p->killed = true; p->kill_sig = sig; }
+  if (sig == SIGKILL || sig == SIGTERM) K->proc_die(p);
   if (K->trace) K->trace("kill", pid, sig);
   return 0;
 }
@@ -1080,3 +1128,19 @@ int __wrap_sd_notify(int unset, const char *state) { (void)unset; (void)state; r
 int __wrap_sd_listen_fds(int unset) { (void)unset; return 0; }
 
 }  // extern "C"
+
+// ------------------------------------------------------------ spawn (link-time seam, simbus only): remember what would be exec'ed
+extern "C" {
+struct DBusBabysitter;
+struct DBusError;
+typedef void (*SimSpawnChildSetupFunc)(void *);
+unsigned __real__dbus_spawn_async_with_babysitter(DBusBabysitter **, const char *, char *const *, char *const *, unsigned, SimSpawnChildSetupFunc, void *, DBusError *);
+unsigned __wrap__dbus_spawn_async_with_babysitter(DBusBabysitter **sitter_p, const char *log_name, char *const *argv, char *const *env, unsigned flags, SimSpawnChildSetupFunc setup,
+                                                  void *user_data, DBusError *error) {
+  if (K) {
+    K->next_spawn_argv.clear();
+    for (int i = 0; argv && argv[i]; i++) K->next_spawn_argv.push_back(argv[i]);
+  }
+  return __real__dbus_spawn_async_with_babysitter(sitter_p, log_name, argv, env, flags, setup, user_data, error);
+}
+}
